@@ -293,3 +293,7 @@ def run(ctx):
     from .C01 import rule_pathstate
     ctx.attempt(rule_table, ctx)
     ctx.attempt(rule_pathstate, ctx, "C01.pathstate")
+    # transparent (de)compression on write/read (C12) and fileset[t] -> find_closest -> read (C16.dispatch)
+    from . import C12, C16
+    for r in (C12.rule_table, C12.rule_cleanup, C12.rule_commit, C12.rule_passthrough, C12.rule_zipname, C12.rule_writer, C16.rule_dispatch):
+        ctx.attempt(r, ctx)
